@@ -68,6 +68,11 @@ class Recorder:
                         ok = "some node does not reach the root"
             if ok:
                 self.problem(fn, "malformed-result", ok)
+        elif any(_is_tree(t) and topo.well_formed(t.id(), t.pid()) for t in inputs):
+            # the statement speaks of operations applied to well-formed trees; an input whose
+            # root is not stored at position 0 (legal output of re-rooting without sorting) is
+            # outside it, so nothing is demanded of the result's numbering here
+            self.evals["skipped_input_not_wellformed"] += 1
         else:
             wf = topo.well_formed(ids, pid)
             if wf:
